@@ -167,6 +167,14 @@ class Worker:
         self.last_shares = resp.get('shares', [])
         return from_wire(resp['ret']), [from_wire(a) for a in resp['args_after']]
 
+    def joint(self, calls):
+        """calls: [(module, func, args, kwargs)] -> results evaluated in one dask graph"""
+        resp = self.request({'op': 'joint', 'calls': [{'module': m, 'func': f, 'args': [to_wire(a) for a in args],
+                                                        'kwargs': {k: to_wire(v) for k, v in kw.items()}} for (m, f, args, kw) in calls]})
+        if not resp['ok']:
+            raise RemoteError(resp['exc'], resp.get('msg', ''))
+        return [from_wire(r) for r in resp['ret']]
+
     def script(self, name, *args):
         resp = self.request({'op': 'script', 'name': name, 'args': list(args)})
         if not resp['ok']:
